@@ -412,7 +412,7 @@ class SObj(Sym):
         self.shape = None
 
     def snapshot(self):
-        o = SObj(self.cls, {k: (v.snapshot() if isinstance(v, (LRef, DRef, ModelObj)) else v) for k, v in self.fields.items()}, self.base_list)
+        o = SObj(self.cls, {k: (v.snapshot() if isinstance(v, (LRef, DRef, ModelObj, SObj)) else v) for k, v in self.fields.items()}, self.base_list)
         o.shape = self.shape
         o.__dict__["_trace"] = list(self.__dict__.get("_trace", []))
         return o
